@@ -53,6 +53,8 @@ type c22DPublisher struct {
 	scripts map[string]string // by object key: the concatenated script; beyond it: '1'
 	calls   map[string][]c22DPubCall
 	lose    map[string]bool // entry id → the report of the attempt just published must be lost
+	idOf    map[string]string          // object key → entry id
+	rel     map[string][]time.Duration // entry id → (nextAttemptAt − now) of every ReleaseClaim that was executed
 }
 
 func (p *c22DPublisher) Publish(_ context.Context, e *notification.OutboxEntry) error {
@@ -67,8 +69,11 @@ func (p *c22DPublisher) Publish(_ context.Context, e *notification.OutboxEntry) 
 	if s, have := p.scripts[key]; have && n < len(s) {
 		o = s[n]
 	}
-	if (o == 'L' || o == 'K') && e.ID != nil {
-		p.lose[e.ID.String()] = true
+	if e.ID != nil {
+		p.idOf[key] = e.ID.String()
+		if o == 'L' || o == 'K' {
+			p.lose[e.ID.String()] = true
+		}
 	}
 	p.calls[key] = append(p.calls[key], c22DPubCall{stage: p.stage, attempt: e.Attempts, outcome: o, nextAt: e.NextAttemptAt, start: start, ret: time.Now()})
 	p.mu.Unlock()
@@ -107,6 +112,10 @@ func (r *c22DRepo) ReleaseClaim(ctx context.Context, tx *sql.Tx, outboxID string
 	if r.lost(id) {
 		return false, errors.New("injected: release lost")
 	}
+	// the backoff as the dispatcher hands it over: both instants are taken by the code itself
+	r.pub.mu.Lock()
+	r.pub.rel[id.String()] = append(r.pub.rel[id.String()], next.Sub(now))
+	r.pub.mu.Unlock()
 	return r.Repository.ReleaseClaim(ctx, tx, outboxID, id, owner, next, now, lastError)
 }
 
@@ -149,7 +158,7 @@ func c22DispCase(out *verifx.Out, e *c22Env, k int, dc c22DispCfg) {
 		out.Line("stage %d %d %d %d %d %d %d", i, st.max, st.min.Milliseconds(), st.maxb.Milliseconds(), st.conc, st.batch, st.lease.Milliseconds())
 	}
 	outbox := fmt.Sprintf("disp%d", k)
-	pub := &c22DPublisher{scripts: map[string]string{}, calls: map[string][]c22DPubCall{}, lose: map[string]bool{}}
+	pub := &c22DPublisher{scripts: map[string]string{}, calls: map[string][]c22DPubCall{}, lose: map[string]bool{}, idOf: map[string]string{}, rel: map[string][]time.Duration{}}
 	repo := &c22DRepo{Repository: notification.NewSQLRepository(), pub: pub}
 	b := storage.MustNewBucketName(fmt.Sprintf("c22d%d", k))
 	keys := make([]string, len(dc.scripts))
@@ -269,16 +278,16 @@ func c22DispCase(out *verifx.Out, e *c22Env, k int, dc c22DispCfg) {
 		}
 		out.Line("entry %d%s", i, toks)
 		calls := pub.calls[kk]
+		rels := pub.rel[pub.idOf[kk]]
+		nrel := 0
 		for j, c := range calls {
-			// the backoff scheduled after a REPORTED failure: the instant the next attempt was scheduled for (as
-			// the next Publish sees it, or as the row says) minus the instant this call returned
+			// the backoff scheduled after a REPORTED failure that was released: nextAttemptAt − now as handed to
+			// ReleaseClaim (rounded up to the millisecond; it can only be SHORTER than the computed delay, by the
+			// time between the two clock readings)
 			delay := c22None
-			if c.outcome == '0' {
-				if j+1 < len(calls) {
-					delay = fmt.Sprint(calls[j+1].nextAt.Sub(c.ret).Milliseconds())
-				} else if rw, ok := rows[kk]; ok && !rw.dead {
-					delay = fmt.Sprint(rw.nextAt.Sub(c.ret).Milliseconds())
-				}
+			if c.outcome == '0' && nrel < len(rels) {
+				delay = fmt.Sprint((rels[nrel] + time.Millisecond - 1).Milliseconds())
+				nrel++
 			}
 			// never early: the next publish started no earlier than it was scheduled for
 			early := "0"
@@ -416,9 +425,9 @@ func runC22(args []string) {
 		st    []c22Stage
 		lossy bool
 	}{
-		{[]c22Stage{{max: 3, conc: 1, batch: 1, min: 40 * ms, maxb: 100 * ms, lease: time.Minute}}, false},
-		{[]c22Stage{{max: 5, conc: 4, batch: 8, min: 30 * ms, maxb: 200 * ms, lease: time.Minute}}, false},
-		{[]c22Stage{{max: 0, conc: 2, batch: 4, min: 25 * ms, maxb: 60 * ms, lease: time.Minute}}, false},
+		{[]c22Stage{{max: 3, conc: 1, batch: 1, min: 100 * ms, maxb: 300 * ms, lease: 400 * ms}}, false},
+		{[]c22Stage{{max: 5, conc: 4, batch: 8, min: 30 * ms, maxb: 200 * ms, lease: 400 * ms}}, false},
+		{[]c22Stage{{max: 0, conc: 2, batch: 4, min: 25 * ms, maxb: 60 * ms, lease: 400 * ms}}, false},
 		// lost reports: worker dies between claim and report / ReleaseClaim, DeadLetter, Delete fail; short lease
 		{[]c22Stage{{max: 2, conc: 2, batch: 4, min: 30 * ms, maxb: 60 * ms, lease: 90 * ms}}, true},
 		{[]c22Stage{{max: 4, conc: 1, batch: 2, min: 25 * ms, maxb: 80 * ms, lease: 70 * ms}}, true},
@@ -435,7 +444,7 @@ func runC22(args []string) {
 	// 12: MaxAttempts is lowered while entries with more attempts are pending: three failures under an unlimited
 	// dispatcher, then a dispatcher with MaxAttempts = 2
 	run(uint64(120), func(r *verifx.Rng) {
-		dc := c22DispCfg{stages: []c22Stage{{max: 0, conc: 4, batch: 8, min: 250 * ms, maxb: 250 * ms, lease: time.Minute}, {max: 2, conc: 2, batch: 4, min: 30 * ms, maxb: 60 * ms, lease: 90 * ms}}}
+		dc := c22DispCfg{stages: []c22Stage{{max: 0, conc: 4, batch: 8, min: 250 * ms, maxb: 250 * ms, lease: 400 * ms}, {max: 2, conc: 2, batch: 4, min: 30 * ms, maxb: 60 * ms, lease: 90 * ms}}}
 		for _, s2 := range []string{"", "0", "00", "1", "01", "L0", "L1", "K", "0L", "000"} {
 			dc.scripts = append(dc.scripts, []string{"000", s2})
 		}
